@@ -122,9 +122,11 @@ def check(program: Program, run: Run) -> None:
                 raise AnalysisError("anchor vanished: _top_sql")
             for tv, label in ((Const(0), "0"), (Const(5), "5"), (Const(None), "None")):
                 sk, _ = render(program, bc, "_top_sql", attrs={"_top": tv})
-                txt = "|".join(flatten(sk))
+                alts = list(flatten(sk))
+                txt = "|".join(alts)
                 want = "" if label == "None" else f"TOP ({label}) "
-                ok = txt == want
+                # the number is printed whenever one was given (modifiers such as PERCENT / WITH TIES may follow it)
+                ok = all(a_ == "" for a_ in alts) if label == "None" else bool(alts) and all(a_.startswith(want) for a_ in alts)
                 cells += 1
                 run.ob("C09 TOP presence tested with `is None` (0 is a value)", f"{bn}._top_sql:_top={label}", ok, detail=f"got {txt!r} want {want!r}", where=f.loc())
                 if not ok:
@@ -264,6 +266,56 @@ def _setters(program: Program, run: Run) -> None:
                    detail=f"writes={ {k: sorted(v)[:4] for k, v in got.items()} } reads={sorted(reads)}", where=f.loc())
             if not (ok and wraps):
                 run.finding(f"C09/setter:{c.qualname}.{name}", f"{c.qualname}.{name} does not map its argument to the matching slot as a wrapped constant (writes {sorted(got)}, reads {sorted(reads)})", where=f.loc(), rule="setters")
+    # any other builder method that fills a row-count slot (a page helper, a dialect's own spelling): the same "zero is a
+    # value" rule, decided on the names the stored value is computed from
+    SLOTS = ("_limit", "_offset")
+    extra = 0
+    for c in program.all_classes():
+        for name, f0 in c.methods.items():
+            if not f0.is_builder or name in want:
+                continue
+            f = inlined(program, f0, c)
+            sn = f.params[0] if f.params else None
+            if sn is None:
+                continue
+            found = []
+
+            def walk_(stmts, stack):
+                for st in stmts:
+                    if isinstance(st, ast.If):
+                        walk_(st.body, stack + [(st.test, True)])
+                        walk_(st.orelse, stack + [(st.test, False)])
+                    elif isinstance(st, ast.Assign):
+                        for t in st.targets:
+                            if isinstance(t, ast.Attribute) and isinstance(t.value, ast.Name) and t.value.id == sn and t.attr in SLOTS:
+                                found.append((t.attr, list(stack), st))
+                    elif isinstance(st, (ast.For, ast.While, ast.With, ast.Try)):
+                        walk_(getattr(st, "body", []), stack)
+            walk_(f.node.body, [])
+            for attr_, stack_, st_ in found:
+                if isinstance(st_.value, ast.Constant):
+                    continue       # a reset (None), not a value
+                extra += 1
+                names = {x.id for x in ast.walk(st_.value) if isinstance(x, ast.Name)} - {sn, "cast", "ValueWrapper"}
+                badg = []
+                for test, pos in stack_:
+                    for t in ([test] + (list(test.values) if isinstance(test, ast.BoolOp) else [])):
+                        if isinstance(t, ast.UnaryOp) and isinstance(t.op, ast.Not):
+                            t, p_ = t.operand, not pos
+                        else:
+                            p_ = pos
+                        if isinstance(t, ast.Name) and t.id in names and p_:
+                            badg.append(ast.unparse(test))
+                        elif (isinstance(t, ast.Compare) and isinstance(t.left, ast.Name) and t.left.id in names and len(t.ops) == 1 and p_
+                              and isinstance(t.ops[0], (ast.Gt, ast.NotEq)) and isinstance(t.comparators[0], ast.Constant) and t.comparators[0].value == 0):
+                            badg.append(ast.unparse(test))
+                run.ob("C09 setter stores a zero like any other value (argument tested for None only)", f"{c.qualname}.{name}:{attr_}", not badg,
+                       detail="; ".join(ast.unparse(g_)[:50] for g_, _p in stack_), where=f.loc(st_))
+                if badg:
+                    run.finding(f"C09/setter-drops-zero:{c.qualname}.{name}:{attr_}",
+                                f"{c.qualname}.{name} stores {attr_} only when `{badg[0]}` holds: a 0 is skipped, so an offset/limit recorded by an earlier call stays in force "
+                                f"although 0 was requested", where=f.loc(st_), rule="setters")
+    run.analysed["other_row_count_stores"] = extra
     # __getitem__ forwards slices to slice()
     if n < 5:
         raise AnalysisError(f"instance count below floor: pagination setters {n}")
